@@ -153,6 +153,14 @@ func GenPair(t *rapid.T, o GenOpts) (c, s EP, m Meta) {
 	if m.Family == "psk" || m.Family == "epsk" {
 		explicitC, explicitS = true, true
 	}
+	if (!explicitC || !explicitS) && agreed>>8 != 0x13 {
+		// a side using the library defaults only offers/accepts the default 1.2 list (no CCM)
+		def := []uint16{0xc02b, 0xcca9, 0xc00a, 0xc02c}
+		if m.Family == "rsa" {
+			def = []uint16{0xc02f, 0xcca8, 0xc014, 0xc030}
+		}
+		agreed = rapid.SampledFrom(def).Draw(t, "agreedDefault")
+	}
 	mk := func(label string, dualSide bool) []uint16 {
 		l := subsetWith(t, label, pool, agreed, true)
 		if dualSide {
